@@ -183,6 +183,9 @@ def correspondence(rep, ctx):
     snapshot = {nm: (list(dd.progeny[i]), list(dd.bfs[i]), list(dd.modes[i]), tuple(dd.hldata[i])) for i, nm in enumerate(view.names)}
     sf_parents = [nm for i, nm in enumerate(view.names) if "SF" in [str(p) for p in dd.progeny[i]]]
     drawn = r.sample(sf_parents, min(3, len(sf_parents))) + ["U-238", "Cf-252", "Mo-99"] + [view.names[i] for i in r.sample(range(view.n), 3)]
+    import networkx as _nx
+    for nm in view.names:                       # the builder behind Nuclide.plot(), for every root (fast: no rendering)
+        rd.nuclide._build_decay_digraph(rd.Nuclide(nm), _nx.DiGraph())
     for nm in drawn:
         try:
             fig, ax = rd.Nuclide(nm).plot()
@@ -197,7 +200,7 @@ def correspondence(rep, ctx):
         now = (list(dd.progeny[i]), list(dd.bfs[i]), list(dd.modes[i]), tuple(dd.hldata[i]))
         nuc = rd.Nuclide(nm)
         if now != snapshot[nm] or list(nuc.progeny()) != snapshot[nm][0] or list(nuc.decay_modes()) != snapshot[nm][2]:
-            fail(f"progeny/branching_fractions/decay_modes of {nm!r} after drawing the diagrams of {drawn}",
+            fail(f"progeny/branching_fractions/decay_modes of {nm!r} after drawing the decay-chain diagrams of all nuclides (and plots of {drawn})",
                  f"now {now[0]} / {list(nuc.progeny())}, before {snapshot[nm][0]}")
             break
     rep.case(("after-plots", tuple(drawn)))
